@@ -3,6 +3,7 @@
 package obfs4
 
 import (
+	"gitlab.com/yawning/obfs4.git/common/ntor"
 	"gitlab.com/yawning/obfs4.git/internal/verifrt"
 	"gitlab.com/yawning/obfs4.git/transports/obfs4/framing"
 )
@@ -122,5 +123,66 @@ func VerifC01Stream() {
 		verifrt.Assert(len(got) <= len(sent), "never more bytes than were written")
 		verifrt.Assert(verifrt.EqualSk(got, sent[:len(got)]), "delivered bytes are a prefix of the bytes written")
 	}
+	verifrt.Reach("end")
+}
+
+// VerifC01HandshakeResidue: lemma L6 – data the server sends right behind its handshake
+// response, arriving in the same segment (or split anywhere), is readable without any
+// further network traffic.
+func VerifC01HandshakeResidue() {
+	verifrt.Ideal() // HMACs of different messages differ (else the +-1 hour MACs could collide)
+	verifrt.SetClock(1700000000)
+	padClasses()
+	verifrt.OnSample(func(min, max int) int { return 0 })
+	sf := vServerFactory()
+	clientKey, err := ntor.NewKeypair(true)
+	verifrt.Assume(err == nil)
+	hs := newClientHandshake(sf.nodeID, sf.identityKey.Public(), clientKey)
+	blob, err := hs.generateHandshake()
+	verifrt.Assume(err == nil)
+
+	sc := verifrt.NewConn("srv", blob)
+	sc.MaxChunks = 1
+	srv := vServerConn(sf, sc)
+	serverKey, err := ntor.NewKeypair(true)
+	verifrt.Assume(err == nil)
+	err = srv.serverHandshake(sf, serverKey)
+	verifrt.Assert(err == nil, "the real server accepts the real client's handshake")
+	respLen := len(sc.Out)
+
+	n := verifrt.Pick("data_len", 0, 2)
+	data := verifrt.Bytes("data", n)
+	if n > 0 {
+		_, err = srv.Write(data)
+		verifrt.Assume(err == nil)
+	}
+
+	// everything the server sent so far arrives before the client reads anything; the
+	// network may cut it anywhere around the end of the handshake response
+	cc := verifrt.NewConn("cli", sc.Out)
+	cc.MaxChunks = 1
+	cuts := []int{0, respLen - inlineSeedFrameLength, respLen - inlineSeedFrameLength + 1, respLen - 1, respLen, respLen + 1}
+	if c := cuts[verifrt.Pick("cut", 0, len(cuts)-1)]; c > 0 && c < len(sc.Out) {
+		cc.Cuts = []int{c}
+	}
+	client := vClientConn(cc)
+	err = client.clientHandshake(sf.nodeID, sf.identityKey.Public(), clientKey)
+	verifrt.Assert(err == nil, "the client completes the handshake")
+	verifrt.Reach("handshake done")
+
+	var got []byte
+	verifrt.OnBlocked(func() {
+		verifrt.Reach("read blocks")
+		verifrt.Assert(cc.Unread() > 0 || len(got) == n, "Read blocks only when every byte the server wrote has been delivered (no further traffic needed)")
+	})
+	verifrt.Spawn(func() {
+		buf := make([]byte, 64)
+		for len(got) < n {
+			k, err := client.Read(buf)
+			verifrt.Assert(err == nil, "no error")
+			got = append(got, buf[:k]...)
+		}
+	})
+	verifrt.Assert(verifrt.Equal(got, data), "data that followed the handshake is delivered intact")
 	verifrt.Reach("end")
 }
